@@ -47,6 +47,18 @@ func runC10(c *rules.Ctx) {
 	c.HasCall(SP, "twaptypes.PoolManagerInterface.RouteCalculateSpotPrice", []string{"k", "ctx", "poolId", "denom0", "denom1"}, true, "sp0 is the price of denom0 quoted in denom1", "sp0")
 	c.HasCall(SP, "twaptypes.PoolManagerInterface.RouteCalculateSpotPrice", []string{"k", "ctx", "poolId", "denom1", "denom0"}, true, "sp1 is the reverse direction", "sp1")
 	c.Returns(SP, 2, "has(sdk.Context.BlockTime(ctx)) | has(previousErrorTime)", "the error time is the previous one or the block time", "")
+	c.Let("SP0", "twaptypes.PoolManagerInterface.RouteCalculateSpotPrice(k,ctx,poolId,denom0,denom1)")
+	c.Let("SP1", "twaptypes.PoolManagerInterface.RouteCalculateSpotPrice(k,ctx,poolId,denom1,denom0)")
+	c.PathCase(SP, "ne({SP0}#1,nil)", 2, "sdk.Context.BlockTime(ctx)", "an error computing sp0 stamps the block time as error time")
+	c.PathCase(SP, "ne({SP1}#1,nil)", 2, "sdk.Context.BlockTime(ctx)", "an error computing sp1 stamps the block time as error time")
+	c.PathCase(SP, "osmomath.BigDec.GT(has({SP0}#0), @twaptypes.MaxSpotPriceBigDec)", 2, "sdk.Context.BlockTime(ctx)", "clamping sp0 to the maximum stamps the block time as error time")
+	c.PathCase(SP, "osmomath.BigDec.GT(has({SP1}#0), @twaptypes.MaxSpotPriceBigDec)", 2, "sdk.Context.BlockTime(ctx)", "clamping sp1 to the maximum stamps the block time as error time")
+	c.PathCase(SP, "osmomath.BigDec.GT(has({SP0}#0), @twaptypes.MaxSpotPriceBigDec)", 0, "osmomath.BigDec.Dec(@twaptypes.MaxSpotPriceBigDec)", "sp0 above the maximum is reported as the maximum")
+	c.PathCase(SP, "osmomath.BigDec.GT(has({SP1}#0), @twaptypes.MaxSpotPriceBigDec)", 1, "osmomath.BigDec.Dec(@twaptypes.MaxSpotPriceBigDec)", "sp1 above the maximum is reported as the maximum")
+	c.PathCase(SP, "eq({SP0}#1,nil) & eq({SP1}#1,nil) & not(osmomath.BigDec.GT(has({SP0}#0), @twaptypes.MaxSpotPriceBigDec)) & not(osmomath.BigDec.GT(has({SP1}#0), @twaptypes.MaxSpotPriceBigDec))", 2, "previousErrorTime", "without error or clamp the previous error time is kept")
+	// end block: every changed pool is updated, a failing pool does not stop the others
+	c.ForEach(T+"Keeper.EndBlock", "twap.Keeper.updateRecords", "twap.Keeper.getChangedPools(k,ctx)", "every pool changed in the block gets its records updated (one failing pool does not stop the rest)", false)
+	c.CallArg(T+"Keeper.EndBlock", "twap.Keeper.updateRecords", 2, "elem(twap.Keeper.getChangedPools(k,ctx))", "the pool updated is the changed pool")
 	// record lookup
 	const GR = T + "Keeper.getRecordAtOrBeforeTime"
 	c.CallArg(GR, "osmoutils.GetFirstValueInRange", 3, "true", "the record at or before t is found by reverse iteration")
